@@ -38,8 +38,14 @@ inline constexpr struct probe_query_fn {
   template <typename R>
   auto operator()(const R& r) const noexcept -> tag_invoke_result_t<probe_query_fn, const R&> { return tag_invoke(*this, r); }
 } probe_query{};
+// a query whose answer is not noexcept: forwarding must not depend on the query being nothrow
+inline constexpr struct probe_query_throwing_fn {
+  template <typename R>
+  auto operator()(const R& r) const noexcept(is_nothrow_tag_invocable_v<probe_query_throwing_fn, const R&>) -> tag_invoke_result_t<probe_query_throwing_fn, const R&> { return tag_invoke(*this, r); }
+} probe_query_throwing{};
 }
-namespace unifex { template <> inline constexpr bool is_receiver_query_cpo_v<vp::probe_query_fn> = true; }
+namespace unifex { template <> inline constexpr bool is_receiver_query_cpo_v<vp::probe_query_fn> = true;
+                   template <> inline constexpr bool is_receiver_query_cpo_v<vp::probe_query_throwing_fn> = true; }
 namespace vp {
 struct probe_sched : inline_scheduler {};
 struct other_sched : inline_scheduler {};
@@ -54,6 +60,7 @@ struct root_receiver {
   template <typename E> void set_error(E&&) && noexcept {}
   void set_done() && noexcept {}
   friend tag_value<7> tag_invoke(tag_t<probe_query>, const root_receiver&) noexcept { return {}; }
+  friend tag_value<9> tag_invoke(tag_t<probe_query_throwing>, const root_receiver&) noexcept(false) { return {}; }
   friend probe_sched tag_invoke(tag_t<get_scheduler>, const root_receiver&) noexcept { return {}; }
   friend probe_alloc<char> tag_invoke(tag_t<get_allocator>, const root_receiver&) noexcept { return {}; }
   friend probe_token tag_invoke(tag_t<get_stop_token>, const root_receiver&) noexcept { return {}; }
@@ -68,18 +75,28 @@ struct leaf {
   template <template <typename...> class V, template <typename...> class T> using value_types = V<T<>>;
   template <template <typename...> class V> using error_types = V<std::exception_ptr>;
   static constexpr bool sends_done = true;
-  template <typename R> struct op { R r; void start() noexcept { unifex::set_value(std::move(r)); } };
+  // The assertions sit in start(), and start() completes on all three channels: a function template body is
+  // instantiated only when it is used, so this makes the compiler instantiate every handler of every adaptor on
+  // the way and, inside those handlers, the connect+start of the successor / completion / trigger senders
+  // (asserting inside connect() would see only the children that are connected eagerly, and would also fire
+  // for the unevaluated connect() probes that constraints and noexcept clauses make with other receivers).
+  template <typename R> struct op {
+    R r; int which;
+    void start() noexcept {
+      static_assert(std::is_invocable_v<tag_t<probe_query>, const R&>, "W-QUERY a user-defined receiver query issued by a child does not reach the consumer's receiver");
+      static_assert(std::is_invocable_v<tag_t<probe_query_throwing>, const R&>, "W-QUERY a user-defined receiver query that is not noexcept does not reach the consumer's receiver");
+      static_assert(std::is_same_v<remove_cvref_t<decltype(get_scheduler(std::declval<const R&>()))>, typename Expect::sched>, "W-QUERY get_scheduler seen by a child is not the expected scheduler");
+      static_assert(std::is_same_v<remove_cvref_t<decltype(get_allocator(std::declval<const R&>()))>, probe_alloc<char>>, "W-QUERY get_allocator is not forwarded to a child");
+      static_assert(std::is_same_v<remove_cvref_t<decltype(get_stop_token(std::declval<const R&>()))>, typename Expect::token>, "W-QUERY the stop token type seen by a child is not the documented one");
+      if (which == 0) unifex::set_value(std::move(r));
+      else if (which == 1) unifex::set_error(std::move(r), std::exception_ptr{});
+      else unifex::set_done(std::move(r));
+    }
+  };
   template <typename R>
-  friend op<remove_cvref_t<R>> tag_invoke(tag_t<connect>, leaf, R&& r) {
-    using RR = remove_cvref_t<R>;
-    static_assert(std::is_invocable_v<tag_t<probe_query>, const RR&>, "W-QUERY a user-defined receiver query issued by a child does not reach the consumer's receiver");
-    static_assert(std::is_same_v<remove_cvref_t<decltype(get_scheduler(std::declval<const RR&>()))>, typename Expect::sched>, "W-QUERY get_scheduler seen by a child is not the expected scheduler");
-    static_assert(std::is_same_v<remove_cvref_t<decltype(get_allocator(std::declval<const RR&>()))>, probe_alloc<char>>, "W-QUERY get_allocator is not forwarded to a child");
-    static_assert(std::is_same_v<remove_cvref_t<decltype(get_stop_token(std::declval<const RR&>()))>, typename Expect::token>, "W-QUERY the stop token type seen by a child is not the documented one");
-    return {(R&&)r};
-  }
+  friend op<remove_cvref_t<R>> tag_invoke(tag_t<connect>, leaf, R&& r) { return {(R&&)r, 0}; }
 };
-template <typename S> void check(S&& s) { auto op = connect((S&&)s, root_receiver{}); (void)op; }
+template <typename S> void check(S&& s) { auto op = connect((S&&)s, root_receiver{}); unifex::start(op); /* compiled, never run */ }
 // one tag type per adaptor position, so that a failing assertion names the adaptor in the instantiation trace
 #define POS(name) struct in_##name {}
 POS(then); POS(upon_done); POS(upon_error); POS(let_value_pred); POS(let_value_succ); POS(let_value_with); POS(let_value_with_stop_source);
